@@ -33,12 +33,12 @@ pub fn prop() -> Prop {
             "thick triangles and polylines above 300 px are drawn with stroke widths <= 20 to bound the cost of a case",
         ],
         subs: vec![
-            Sub::tape("primitives", 40, 12_000, 180_000, |d, cx| primitives(d, cx, false)).with_fp(),
-            Sub::tape("triangles_polylines", 40, 1_500, 22_500, |d, cx| primitives(d, cx, true)),
-            Sub::tape("text", 90, 20_000, 300_000, text),
-            Sub::tape("images_buffers", 80, 30_000, 450_000, images_buffers),
-            Sub::tape("adapter_stacks", 200, 30_000, 450_000, adapter_stacks),
-            Sub::tape("geometry_queries", 30, 40_000, 600_000, geometry_queries).with_fp(),
+            Sub::tape("primitives", 40, 12_000, 600_000, |d, cx| primitives(d, cx, false)).with_fp(),
+            Sub::tape("triangles_polylines", 40, 1_500, 75_000, |d, cx| primitives(d, cx, true)),
+            Sub::tape("text", 90, 20_000, 1_000_000, text),
+            Sub::tape("images_buffers", 80, 30_000, 1_500_000, images_buffers),
+            Sub::tape("adapter_stacks", 200, 30_000, 1_500_000, adapter_stacks),
+            Sub::tape("geometry_queries", 30, 40_000, 2_000_000, geometry_queries).with_fp(),
         ],
     }
 }
